@@ -246,6 +246,9 @@ class World:
                 out.w(open(os.path.join(self.dir, f)).read())
                 out.w('\n')
             out.w('}\n')
+        out.w(self.cfg.get('root_text', ''))
+        if 'type_urls' in self.cfg:
+            self._emit_type_urls(out)
         # module tree
         tree = {}
         for m in mods:
@@ -280,7 +283,7 @@ class World:
                 sub = '::'.join(pp.split('::')[:-1]) if k != 'impl' else ''
                 modpath = m['mod'] + ('::' + sub if sub else '')
                 tgt = self.emitted.setdefault(modpath, set())
-                if k in ('struct', 'enum', 'const', 'type'):
+                if k in ('struct', 'enum', 'const', 'type', 'trait'):
                     if (modpath, it['name']) not in self.vc.skips:
                         tgt.add(it['name'])
                 elif k == 'fn':
@@ -302,7 +305,7 @@ class World:
         top = {m['mod'].split('::')[0] for m in self.modules()}
         if segs[0] not in top:
             known = {(x['name'] if isinstance(x, dict) else x).split('/')[-1] for x in self.cfg['shim']} | {x['mod'] for x in self.cfg.get('spec', [])}
-            return segs[0] in known   # shim / spec module: let rustc judge; unknown module: drop
+            return segs[0] in known or segs[0] in self.cfg.get('root_names', [])   # shim / spec module: let rustc judge; unknown module: drop
         # find the longest module prefix
         for i in range(len(segs), 0, -1):
             modp = '::'.join(segs[:i])
@@ -317,6 +320,59 @@ class World:
                         return True
                 return False
         return True
+
+    def _emit_type_urls(self, out):
+        """one ground obligation per `impl TypeUrl for X`: the literal equals
+        "/" ++ <proto package of the file X's module include!s> ++ "." ++ <struct name>"""
+        tu = self.cfg['type_urls']
+        libp = os.path.join(REPO, tu['lib'])
+        tup = os.path.join(REPO, tu['file'])
+        for pth in (libp, tup):
+            if not os.path.exists(pth):
+                raise Inconclusive(f'lost anchor: {pth} missing')
+        lib = open(libp).read()
+        # module path -> include!()d proto file, by brace tracking over lib.rs
+        pkg_of = {}
+        stack = []
+        depth = 0
+        for mm in re.finditer(r'pub mod (?:r#)?(\w+)\s*\{|include!\("proto/([^"]+)\.rs"\)|\{|\}', lib):
+            if mm.group(1):
+                stack.append((mm.group(1), depth))
+                depth += 1
+            elif mm.group(2):
+                pkg_of['::'.join(x[0] for x in stack)] = mm.group(2)
+            elif mm.group(0) == '{':
+                depth += 1
+            else:
+                depth -= 1
+                if stack and stack[-1][1] == depth:
+                    stack.pop()
+        idx = run_vx([tup])[tup]
+        out.w('\n// ---- generated: type URL obligations (' + tu['file'] + ') ----\npub mod type_url_obligations {\nuse vstd::prelude::*;\nverus! {\n')
+        n = 0
+        for it in idx['items']:
+            if it['kind'] != 'impl' or not (it.get('trait') or '').endswith('TypeUrl'):
+                continue
+            ty = re.sub(r'\s+', '', it['self_ty']).replace('r#', '')
+            segs = ty.split('::')
+            if segs[0] == 'crate':
+                segs = segs[1:]
+            modp, sname = '::'.join(segs[:-1]), segs[-1]
+            c = next((c for c in it['consts'] if c['name'] == 'TYPE_URL'), None)
+            if c is None or modp not in pkg_of:
+                raise Inconclusive(f'lost anchor: cannot resolve type URL impl for {ty}')
+            lit = c['expr'].strip()
+            if not (lit.startswith('"') and lit.endswith('"')):
+                raise Inconclusive(f'unsupported: TYPE_URL of {ty} is not a string literal')
+            pkg = pkg_of[modp]
+            n += 1
+            lab = f'{tu.get("label", "C20")}.type-url-{sname}'
+            start = out.pos()
+            out.w(f'\n// [{lab}]\npub proof fn type_url_{n}_{sname}()\n'
+                  f'    ensures {lit}@ == "/"@ + ({rust_str(pkg)}@ + ("."@ + {rust_str(sname)}@))\n'
+                  f'{{ reveal_strlit({lit}); reveal_strlit("/"); reveal_strlit({rust_str(pkg)}); reveal_strlit("."); reveal_strlit({rust_str(sname)}); }}\n')
+        out.w('} // verus!\n}\n')
+        self.generated_type_urls = n
 
     def _feature_hidden(self, key):
         # contracts for modules that are not part of this feature configuration
@@ -463,6 +519,8 @@ class World:
                 self._emit_fn(out, src, m, modpath, it, it['name'], reach)
             elif k == 'impl':
                 self._emit_impl(out, src, m, modpath, it, reach)
+            elif k == 'trait':
+                self._emit_trait(out, src, m, modpath, it, reach)
 
     @staticmethod
     def _parent(path):
@@ -593,7 +651,7 @@ class World:
     def _emit_impl(self, out, src, m, modpath, it, reach):
         if (modpath, it['name']) in self.vc.skips:
             return
-        self_ty = it['self_ty']
+        self_ty = it['self_ty'] if it['trait'] is None else it['name']
         have = [mm for mm in it['methods'] if (modpath, f'{self_ty}::{mm["name"]}') in self.vc.fns]
         if it['trait'] is not None and not have:
             self.uncontracted.append({'mod': modpath, 'name': it['name'], 'file': m['file'], 'kind': 'trait-impl'})
@@ -606,6 +664,23 @@ class World:
         out.w('\n' + head + '\n')
         for mm in it['methods']:
             self._emit_fn(out, src, m, modpath, mm, f'{self_ty}::{mm["name"]}', reach, indent='    ')
+        out.w('}\n')
+
+    def _emit_trait(self, out, src, m, modpath, it, reach):
+        if (modpath, it['name']) in self.vc.skips:
+            return
+        tname = it['name']
+        fns = [x for x in it['items'] if x['kind'] == 'fn']
+        if fns and not any((modpath, f'{tname}::{x["name"]}') in self.vc.fns for x in fns):
+            self.uncontracted.append({'mod': modpath, 'name': tname, 'file': m['file'], 'kind': 'trait'})
+            return
+        head = src[it['start_no_attrs']:it['brace'][0][1]].decode()
+        out.w('\n' + head + '\n')
+        for x in it['items']:
+            if x['kind'] == 'fn':
+                self._emit_fn(out, src, m, modpath, x, f'{tname}::{x["name"]}', reach, indent='    ')
+            else:
+                out.w(src[x['span'][0]:x['span'][1]].decode() + '\n')
         out.w('}\n')
 
     def _note_uncontracted(self, modpath, name, m, it, src):
@@ -653,7 +728,13 @@ class World:
 
     def _emit_fn_variant(self, out, src, m, modpath, it, cname, c, variant, pname, is_stub):
         sig = it['sig']
-        block_s, block_e = it['block']
+        bodiless = it.get('has_body') is False
+        if bodiless:
+            if variant not in ('main', 'stub'):
+                return
+            block_s = block_e = it['semi'][0]
+        else:
+            block_s, block_e = it['block']
         sig_start = it['start_no_attrs']
         edits = []
         # A1: name the return value
@@ -692,7 +773,7 @@ class World:
             contract += 'requires\n' + req.rstrip().rstrip(',') + ',\n'
         label_spans = []
         start_fn = out.pos()
-        ext = is_stub or variant == 'stub'
+        ext = (is_stub or variant == 'stub') and not bodiless
         attrs = ''
         if ext:
             attrs = '#[verifier::external_body]\n'
@@ -724,7 +805,9 @@ class World:
         self.counters['A1'] += 1 if variant == 'main' else 0
         body_start = out.pos()
         inner_labels = []
-        if ext:
+        if bodiless:
+            out.w(';\n')
+        elif ext:
             out.w('{ unimplemented!() }\n')
         else:
             body, inner = self._body(src, it, c, cname)
